@@ -1,4 +1,5 @@
 import BSModel.Proofs.DepthEvents
+import BSModel.Gen.C11Tables
 /-! # C11 — working with a tree never recurses on its depth            (PARTIAL: interpreter stack measured)
 
 Property theorems only. **These are theorems about an accounting of the code's call graph** (`Model/Depth.lean`: a
@@ -164,7 +165,33 @@ example : (run bothNames 5 initState [.open 2 false, .open 12 false, .text]).1.s
 theorem pickled_state_has_no_tree_object (cfg : Cfg) (h3 : cfg.dropLinks = true) (nm : Names) (h0 : nm.outermostOnly = false)
     (hE : nm.scElif = false) (deep : Nat) (evs : List Ev) (rootLinked : Bool) :
     stateRefs cfg rootLinked (feedState nm deep evs) = 0 := by
-  simp [stateRefs, feedState_clean nm h0 hE deep evs, h3]
+  have h := congrArg List.length (feedState_clean nm h0 hE deep evs)
+  simp only [leftover, List.length_append, List.length_nil] at h
+  have hs : (feedState nm deep evs).stack.length = 0 := by omega
+  have hp : (feedState nm deep evs).pre.length = 0 := by omega
+  have hc : (feedState nm deep evs).sc.length = 0 := by omega
+  rw [stateRefs_eq, hs, hp, hc]; simp [h3]
+
+/-- Field by field: the mirror of `__getstate__` (copy of `__dict__`, `contents := []`, `markup := decode()`, the four
+    links := None, `_most_recent_element` deleted) applied to the `__dict__` of a parsed (and then arbitrarily edited,
+    linked or not) document returns a dict in which NO field holds a tree object. -/
+theorem getstate_fields_hold_no_tree_object (cfg : Cfg) (h3 : cfg.dropLinks = true) (nm : Names) (h0 : nm.outermostOnly = false)
+    (hE : nm.scElif = false) (deep : Nat) (evs : List Ev) (hasKids rootLinked mostRecent : Bool) :
+    ∀ f ∈ getstateImpl cfg (soupDict (feedState nm deep evs) hasKids rootLinked mostRecent), ∀ k, f.val ≠ .tree k := by
+  have h := congrArg List.length (feedState_clean nm h0 hE deep evs)
+  simp only [leftover, List.length_append, List.length_nil] at h
+  have hs : (feedState nm deep evs).stack.length = 0 := by omega
+  have hp : (feedState nm deep evs).pre.length = 0 := by omega
+  have hc : (feedState nm deep evs).sc.length = 0 := by omega
+  intro f hf k
+  simp only [getstateImpl, soupDict, h3, hs, hp, hc, Val.ofRefs] at hf
+  cases hasKids <;> cases rootLinked <;> cases mostRecent <;> simp at hf <;>
+    (rcases hf with hf | hf | hf | hf | hf | hf | hf | hf | hf | hf | hf | hf | hf | hf <;> subst hf <;> simp)
+
+example : getstateImpl repaired (soupDict (feedState bothNames 9 [.open 12 false, .text, .close 12, .open 2 false]) true true true) ≠ [] := by
+  decide
+/-- before `__getstate__` the same dict does hold tree objects (`contents`, `next_element`, `_most_recent_element`) -/
+example : dictRefs (soupDict (feedState bothNames 9 [.open 12 false, .text, .close 12]) true true true) = 3 := by decide
 
 /-- `pickle.dumps(soup)` / `pickle.loads` of a parsed document (parsed from ANY event sequence under ANY tables, then
     edited into any tree `l`, root linked or not): `__getstate__` renders, the pickler sees only flat values,
@@ -188,13 +215,10 @@ example : pickleDepth repaired bothNames 1000 true (feedState bothNames 1000 [.o
 theorem pickle_unbounded_if_container_pop_is_elif (cfg : Cfg) (deep : Nat) (rootLinked : Bool) (l : Loc) :
     sizeN l.node ≤ pickleDepth cfg { bothNames with scElif := true } deep rootLinked
       (feedState { bothNames with scElif := true } deep [.open 12 false, .text, .close 12]) l := by
-  have : leftover (feedState { bothNames with scElif := true } deep [.open 12 false, .text, .close 12]) ≠ [] := by
-    simp [feedState, run, step, pushTag, popToTag, popTo, popTag, popEqPops, closeAll, initState, leftover, bothNames]
+  have hl : (feedState { bothNames with scElif := true } deep [.open 12 false, .text, .close 12]).sc.length = 1 := by
+    simp [feedState, run, step, pushTag, popToTag, popTo, popTag, popEqPops, closeAll, initState, bothNames]
   have h : stateRefs cfg rootLinked (feedState { bothNames with scElif := true } deep [.open 12 false, .text, .close 12]) ≠ 0 := by
-    unfold stateRefs
-    have : (leftover (feedState { bothNames with scElif := true } deep [.open 12 false, .text, .close 12])).length ≠ 0 := by
-      intro e; exact this (List.eq_nil_of_length_eq_zero e)
-    omega
+    rw [stateRefs_eq, hl]; omega
   simp only [pickleDepth, picklerWalk, h, ↓reduceIte, call]
   omega
 
@@ -358,7 +382,7 @@ theorem isXmlOld_unbounded (cfg : Cfg) (h : cfg.isXmlLoop = false) (n : Nat) (si
     links left in the state dict: the pickler nests at least once per element of the document, whatever its shape -/
 theorem pickleLinkedOld_unbounded (cfg : Cfg) (h : cfg.dropLinks = false) (nm : Names) (deep : Nat) (ps : PState) (l : Loc) :
     sizeN l.node ≤ pickleDepth cfg nm deep true ps l := by
-  have : stateRefs cfg true ps ≠ 0 := by simp [stateRefs, h]
+  have : stateRefs cfg true ps ≠ 0 := by rw [stateRefs_eq]; simp [h]
   simp only [pickleDepth, picklerWalk, this, ↓reduceIte, call]
   omega
 
@@ -375,5 +399,41 @@ theorem eqDepth_differs_is_one (n n' a a' : Nat) (kx kx' v v' : Bool) (ks ks' : 
   simp [eqDepth, h]
 
 example : eqDepth (.tag 1 0 true false [.tag 2 0 true false [], .str 2]) (.tag 2 0 true false [.tag 1 0 true false [], .str 2]) = 1 := by decide
+
+/-! ## 9. the shipped tables and the interpreter's limit (generated on every run from the live objects) -/
+
+/-- the tables of the live `HTMLParserTreeBuilder()` -/
+def shippedNames : Names := { isPre := BS.Gen.c11PreserveCodes.contains, isSc := BS.Gen.c11ContainerCodes.contains }
+
+/-- With the shipped tables no name is both whitespace-preserving and a string container (over the WHOLE generated
+    tables) — which is why a coupling of the two pops in `popTag` is invisible in the default configuration, and why
+    the harness also parses under configurations where the tables overlap. The theorems above do not need this. -/
+theorem shipped_tables_disjoint : ∀ c ∈ BS.Gen.c11PreserveCodes, c ∉ BS.Gen.c11ContainerCodes := by decide
+
+/-- frames the caller may already have on the stack when it calls into bs4 -/
+def callerFrames : Nat := 100
+
+/-- Every bound proved above (the largest is 18) leaves room below the live `sys.getrecursionlimit()` even when the
+    caller is already 100 frames deep: an operation whose accounting is bounded by one of these constants cannot
+    raise RecursionError, however deep the document. -/
+theorem bounded_depth_is_below_the_recursion_limit (d : Nat) (h : d ≤ 18) : d + callerFrames < BS.Gen.c11RecursionLimit := by
+  have : 18 + callerFrames < BS.Gen.c11RecursionLimit := by decide
+  omega
+
+/-- e.g. parsing under the shipped tables, rendering, copying and pickling, each for every input -/
+theorem handled_beyond_the_recursion_limit (cfg : Cfg) (h1 : cfg.neIdentity = true) (h2 : cfg.isXmlLoop = true) (h3 : cfg.dropLinks = true)
+    (deep : Nat) (evs : List Ev) (isDoc lk : Bool) (l : Loc) :
+    parseDepth shippedNames deep evs + callerFrames < BS.Gen.c11RecursionLimit ∧
+    decodeDepth cfg l + callerFrames < BS.Gen.c11RecursionLimit ∧
+    copyDepth cfg isDoc l + callerFrames < BS.Gen.c11RecursionLimit ∧
+    pickleDepth cfg shippedNames deep lk (feedState shippedNames deep evs) l + callerFrames < BS.Gen.c11RecursionLimit := by
+  refine ⟨bounded_depth_is_below_the_recursion_limit _ ?_, bounded_depth_is_below_the_recursion_limit _ ?_,
+    bounded_depth_is_below_the_recursion_limit _ ?_, bounded_depth_is_below_the_recursion_limit _ ?_⟩
+  · have := depth_bounded_parse shippedNames rfl rfl deep evs; omega
+  · have := depth_bounded_decode cfg h1 h2 l; omega
+  · exact depth_bounded_copy cfg h1 h2 isDoc l
+  · have := depth_bounded_pickle cfg h1 h2 h3 shippedNames rfl rfl deep evs lk l; omega
+
+example : parseDepth shippedNames 7 [.open 6 false, .open 9 false, .open 12 false, .text, .close 6] = 14 := by decide
 
 end BS.Props.C11
